@@ -834,3 +834,31 @@ Definition union_with_attrs (a_self a_other : attrs) (self other : tables) (mapp
     | Err c => Err c | OOB => OOB | Fuel => Fuel
     end
   else union self other mapping check_shared add_populations.
+
+(* ------------------------------------------------------------------------------------ *)
+(* Python wrappers as thin compositions.                                                  *)
+(*   TableCollection.subset (tables.py 4098-4115): cast the node list, C subset with       *)
+(*     KEEP_UNREFERENCED = not remove_unreferenced, NO_CHANGE_POPULATIONS = not            *)
+(*     reorder_populations, then self.sort(), then one provenance row if asked.            *)
+(*   TreeSequence.subset (trees.py 7246-7253): dump_tables(), TableCollection.subset,      *)
+(*     tables.tree_sequence() — no shortcut for any node list: the identity list with      *)
+(*     remove_unreferenced=False still reorders the populations.                           *)
+(*   TreeSequence.union (trees.py 7300-7309): dump both, TableCollection.union (= the C    *)
+(*     function, which sorts itself), tree_sequence().                                     *)
+(* The number of provenance rows added is the second component.                            *)
+(* ------------------------------------------------------------------------------------ *)
+Definition tc_subset (t : tables) (nodes : list Z) (record_provenance reorder_populations remove_unreferenced : bool)
+  : res (tables * Z) :=
+  do t' <- py_subset t nodes (negb remove_unreferenced) (negb reorder_populations);
+  Ok (t', if record_provenance then 1 else 0).
+
+Definition ts_subset (t : tables) (nodes : list Z) (record_provenance reorder_populations remove_unreferenced : bool)
+  : res (tables * Z) :=
+  tc_subset t nodes record_provenance reorder_populations remove_unreferenced.
+
+Definition ts_union (self other : tables) (mapping : list Z) (check_shared add_populations record_provenance : bool)
+  : res (tables * Z) :=
+  do u <- union self other mapping check_shared add_populations;
+  Ok (u, if record_provenance then 1 else 0).
+Definition res_tables_prov_eqb (r : res (tables * Z)) (b : tables) (k : Z) : bool :=
+  match r with Ok (a, k') => tables_eqb a b && (k' =? k) | _ => false end.
